@@ -8,11 +8,14 @@ first and the third, which is how the two defects repaired by the `fix:` commit 
 Binding: (B1) every crash/restart history of the as-is model (one behaviour per Restart edge, no
 VIEW, so histories that the repaired model would merge are kept) is replayed on a real store by the
 `crash` driver; (B2) concurrent executions of the real write path recorded through the verif hooks
-are validated against WritePathTrace.tla, with a corrupted-trace self-test."""
+are validated against WritePathTrace.tla, with a corrupted-trace self-test; (B2, whole store)
+histories of real store processes with several fractions, rotation, seals, retention and process
+deaths at random hook points are validated against StoreTrace.tla (checks/_store.py)."""
 import json
 import os
 import shutil
 import vlib
+from checks import _store
 
 LEVEL = "model_checking"
 
@@ -70,7 +73,10 @@ def run(ctx):
             return lines
         vlib.selftest_trace(ctx, "WritePathTrace.tla", "WritePathTrace.cfg", tr, swap)
         vlib.selftest_trace(ctx, "WritePathTrace.tla", "WritePathTrace.cfg", tr, drop)
-    ctx.cov["traces_validated_against_impl"] = summ["cases"] + runs
+    # 4. whole-store histories (several fractions, rotation, seals, retention, process deaths at hook points)
+    _store.design(ctx)
+    sruns, sev = _store.histories(ctx, "writepath", runs=120 if quick else 2500, scenario_runs=0)
+    ctx.cov["traces_validated_against_impl"] = summ["cases"] + runs + sruns
     ctx.cov["trace_events"] = ev.get("events", 0)
     ctx.cov["evaluations"] = summ["evals"] + ev.get("events", 0)
     ctx.cov["distinct_nontrivial"] = summ["nontrivial"]
@@ -82,4 +88,4 @@ def run(ctx):
                        "%d recorded runs of 24 bulks from 1..4 concurrent writers with real fsync. non-trivial = behaviours with >=1 crash" % runs)
     ctx.assumptions += ["a crash keeps the fsynced prefix of a file and an arbitrary prefix of what was written after it (no reordering inside a file)",
                         "crash images are produced by letting the real write path finish the bulk in flight and cutting the two files back",
-                        "single active fraction (rotation/sealing are C08/C15)", "the kernel honours fsync"]
+                        "the byte-level crash images use a single active fraction; several fractions, rotation, sealing and retention are covered by the whole-store histories (process deaths at hook points, page cache kept) and by C08/C15", "the kernel honours fsync"]
